@@ -280,7 +280,30 @@ func runC14(ctx *Ctx) {
 	defer corrIE.run(ctx)
 	corrOG := newCorr("opengraph")
 	defer corrOG.run(ctx)
+	corrSO := newCorr("schemaorg")
+	defer corrSO.run(ctx)
+	corrMP := newCorr("markuppage")
+	defer corrMP.run(ctx)
 	if ctx.Replay == "" {
+		for i := 0; i < ctx.pick(300, 10000); i++ {
+			r := newRng(ctx.Seed, fmt.Sprintf("C14/mp/%d", i))
+			g := newPageGen(r)
+			var src string
+			switch i % 3 {
+			case 0:
+				src = ogPage(r, g)
+			case 1:
+				src = schemaPage(r, g)
+			default:
+				src = iePage(r, g)
+			}
+			addMarkupPageCase(corrMP, rep, src, map[string]interface{}{"html": src})
+		}
+		for i := 0; i < ctx.pick(800, 30000); i++ {
+			r := newRng(ctx.Seed, fmt.Sprintf("C14/so/%d", i))
+			src := schemaPage(r, newPageGen(r))
+			addSchemaOrgCase(corrSO, rep, src, map[string]interface{}{"html": src})
+		}
 		for i := 0; i < ctx.pick(800, 30000); i++ {
 			r := newRng(ctx.Seed, fmt.Sprintf("C14/og/%d", i))
 			src := ogPage(r, newPageGen(r))
@@ -305,6 +328,8 @@ func runC14(ctx *Ctx) {
 		corr.add(sb.String(), showInfo(info), replay)
 		addIEReaderCase(corrIE, rep, src, replay)
 		addOpenGraphCase(corrOG, rep, src, replay)
+		addSchemaOrgCase(corrSO, rep, src, replay)
+		addMarkupPageCase(corrMP, rep, src, replay)
 		// the property, on the public result
 		res, err := distiller.Apply(d.Root, &distiller.Options{SkipPagination: true})
 		if err != nil {
